@@ -349,6 +349,8 @@ def run(tier: str) -> int:
                 if btext is None or not any(t["t"] == "id" and t["v"] == MARK for t in b2) or any(t["t"] == "word" and t["v"] == MARK.upper() for t in b2):
                     continue  # (a site that writes the name bare is one finding of the first pass)
                 for n in special:
+                    if n == "*" and sname in ("select_str", "returning"):
+                        continue  # (as in the first pass: select("*") / returning("*") mean "all columns" by contract)
                     SHARE.clear()
                     try:
                         if f(Q1, n) is None:
